@@ -48,7 +48,13 @@ type aggregate struct {
 	stalled    int
 	deaths     int // plans that killed their worker and were classified into a finding
 	infra      []string
+	// stoppedEarly: stripes were abandoned after maxSameDeath identical deaths
+	stoppedEarly bool
 }
+
+const maxSameDeath = 12
+
+var stripeKnown = loadKnown()
 
 func newAggregate() *aggregate {
 	return &aggregate{hashes: map[string]struct{}{}, faults: map[string]int{}, probes: map[string]int{}, findings: map[string][]finding{}}
@@ -160,6 +166,17 @@ func runStripe(b *built, opt checkOpts, inf core.Info, w, nRuns int, deadline ti
 		} else {
 			agg.findings[sig] = append(agg.findings[sig], finding{Signature: sig, Message: msg, Plan: inf2.Plan, Run: inf2.Run, Death: true})
 			agg.deaths++ // executed and accounted for as a finding, although it left no record
+			// The same unlisted death over and over (a hang costs a whole
+			// watchdog period each time): the verdict is settled, stop this
+			// stripe instead of paying for thousands of them.
+			if len(agg.findings[sig]) >= maxSameDeath && stripeKnown.match(opt.ID, sig) == nil {
+				if !agg.stoppedEarly {
+					agg.stoppedEarly = true
+					fmt.Printf("NOTE: %d plans died with signature %s; the remaining plans of the stripes that meet it are not executed\n", len(agg.findings[sig]), sig)
+				}
+				mu.Unlock()
+				return
+			}
 		}
 		mu.Unlock()
 		if inf2.Run <= last && inf2.Run < start {
